@@ -31,10 +31,15 @@ func regExplore(id string, runs []WorldRun, mons func(*worlds.World) []explore.M
 
 func init() {
 	pay := []WorldRun{{World: "pay", Quick: b(2, 2, 2), Thorough: b(3, 2, 3)}}
+	coin := WorldRun{World: "coin", Quick: b(2, 2, 2), Thorough: b(3, 2, 3), OneEnv: true}
+	pay = append(pay, coin)
 	regExplore("C01", pay, one(monitors.Conservation{}))
 	regExplore("C02", pay, one(monitors.NonNegative{}))
 	regExplore("C03", pay, one(monitors.FailedTxOnlyFee{}))
+	regExplore("C22", []WorldRun{coin}, one(monitors.Registry{}))
+	regExplore("C27", pay, one(monitors.Fees{}))
 	regExplore("C04", pay, one(monitors.OnceInOrder{}))
 	regExplore("C07", pay, one(monitors.NoCrash{}))
 	regExplore("C26", pay, one(monitors.ChargedOnce{}))
+	regExplore("C06", []WorldRun{{World: "pay", Quick: b(2, 2, 2), Thorough: b(3, 2, 3), CheckFirst: true}}, one(monitors.CheckEqDeliver{}))
 }
